@@ -305,6 +305,32 @@ func runGoAPIOtto(r *rc) {
 			_ = vm.Set("NaN", []int{1})
 			_ = vm.Set("", nil)
 		}},
+		{"nil-objects", func(vm *otto.Otto) {
+			// what Value.Object() returns for a non-object, and zero values
+			var np *otto.Object
+			_ = vm.Set("zn", np)
+			_ = vm.Set("zo", otto.Object{})
+			_ = vm.Set("zv", otto.Value{})
+			_ = vm.Set("zu", otto.UndefinedValue().Object())
+			_, _ = vm.Run(`typeof zn + typeof zo + typeof zv + typeof zu`)
+			_, _ = vm.Run(`String(zo) + JSON.stringify([zn, zo]) + Object.keys(Object(zo)).length`)
+			for _, x := range []interface{}{np, otto.Object{}, &otto.Object{}, otto.Value{}} {
+				v, err := vm.ToValue(x)
+				if err == nil {
+					_ = v.String()
+					_ = v.Class()
+					_, _ = v.Export()
+				}
+				_, _ = vm.Call("String", nil, x)
+				_, _ = vm.Call("Object.keys", x)
+			}
+			if o, err := vm.Object(`({})`); err == nil {
+				_ = o.Set("a", np)
+				_ = o.Set("b", otto.Object{})
+				_, _ = o.MarshalJSON()
+				_, _ = o.Call("hasOwnProperty", otto.Object{})
+			}
+		}},
 		{"Call", func(vm *otto.Otto) {
 			_, _ = vm.Call("Math.abs", nil, -1)
 			_, _ = vm.Call("new Date", nil, 0)
